@@ -34,7 +34,7 @@ class C07(Prop):
             '=> trees structurally identical (own comparator); raise => error_leaf has the (value, start_pos) of the first error '
             '(min by position over error leaves and leaves following error nodes at any depth; zero-width indentation tokens '
             'compare position only). Non-trivial: strict mode raised, or text has >= 2 statements (newline inside).')
-    budgets = {'quick': 32000, 'thorough': 800000}
+    budgets = {'quick': 32000, 'thorough': 3200000}
 
     def strategy(self, tier):
         kinds = ('repo',) if tier == 'quick' else ('repo', 'stdlib3.12')
